@@ -147,6 +147,36 @@ Definition handler_ok (npw : bool) (effs : list heff) : bool :=
           || hlist_eqb l [HCheckpoint false; HExit true]).
 Definition handler_today : list heff := [HSkip; HClosePool; HCheckpoint false; HSkip; HExit true].
 
+(* ---- the exit must reach the top: constructs that can intercept SystemExit ---------------------- *)
+(* safe_exit ends the process by RAISING SystemExit in the interrupted frame; every enclosing
+   try/except, try/finally and contextlib.suppress on the way up gets a chance to stop it.
+   One entry per such construct of the package (regenerated from the AST, tie A).                 *)
+Inductive catch :=
+| CBare            (* except:                                   *)
+| CBase            (* except BaseException / suppress(BaseException) *)
+| CSysExit         (* except (.., SystemExit, ..)               *)
+| COther           (* except Exception / a specific class: SystemExit passes *)
+| CFinallyReturn.  (* finally: return / break / continue - discards the exception *)
+Record xentry := mkx { x_catch : catch; x_reraise : bool }.
+Definition intercepts (e : xentry) : bool :=
+  match x_catch e with
+  | COther => false
+  | CFinallyReturn => true
+  | CBare | CBase | CSysExit => negb (x_reraise e)
+  end.
+(* SystemExit raised inside nested guarded blocks, innermost first *)
+Inductive outcome := Exits | SwallowedAt (depth : nat).
+Fixpoint propagate (path : list xentry) (d : nat) : outcome :=
+  match path with
+  | [] => Exits
+  | e :: r => if intercepts e then SwallowedAt d else propagate r (S d)
+  end.
+Definition no_swallow (table : list xentry) : bool := forallb (fun e => negb (intercepts e)) table.
+(* what the process does once the handler has run inside the guarded blocks [path]:
+   it terminates with the handler's exit code only if the exit reaches the top *)
+Definition process_exit {S} (w : hworld S) (path : list xentry) : option Z :=
+  match propagate path 0 with Exits => exit_code w | SwallowedAt _ => None end.
+
 (* ---- ImportanceNestedSampler.checkpoint ------------------------------------------------------ *)
 Inductive ieff :=
 | IGuardReturn     (* if periodic is False: (log); return                *)
